@@ -761,3 +761,48 @@ Lemma store_history_terminates fuel ops :
   snd (orun true true true content isman fuel empty_store ops) = true.
 Proof. intros Hf Ho. apply orun_term; auto. intros x Hx. simpl in Hx. tauto. Qed.
 End HistoryFuel.
+
+(* ---- refinement of the abstract specification, and the name layer ---- *)
+Section Spec.
+Variable content : node -> list node.
+Variable isman : node -> bool.
+Variable rank : node -> nat.
+Hypothesis content_isman : forall p, content p <> [] -> isman p = true.
+Hypothesis rank_dec : forall p c, In c (content p) -> rank c < rank p.
+
+Lemma spec_preds_perm (g : graph) (blobs : list node) n :
+  NoDup (predecessors g n) ->
+  (forall p, In p (predecessors g n) <-> In p blobs /\ In n (content p)) ->
+  Permutation (predecessors g n) (spec_preds content blobs n).
+Proof.
+  intros Hd Hm. apply NoDup_Permutation; auto.
+  - unfold spec_preds. apply NoDup_filter, NoDup_nodup.
+  - intro p. rewrite Hm. unfold spec_preds. rewrite filter_In, nodup_In, smem_In. tauto.
+Qed.
+
+Lemma autosave_refines_spec fuel ops n :
+  let r := arun content isman fuel empty_astore ops in
+  snd r = true ->
+  Permutation (predecessors (o_graph (a_s (fst r))) n)
+              (spec_preds content (o_blobs (a_s (fst r))) n).
+Proof.
+  intros r Hok.
+  destruct (autosave_history_exact content isman rank content_isman rank_dec fuel ops n Hok) as [Hd Hm].
+  apply spec_preds_perm; auto.
+Qed.
+
+Lemma names_refines_spec fuel ops n :
+  let r := nrun content isman fuel ops in
+  snd r = true ->
+  Permutation (predecessors (o_graph (a_s (fst r))) n)
+              (spec_preds content (o_blobs (a_s (fst r))) n).
+Proof. intros r Hok. apply autosave_refines_spec. exact Hok. Qed.
+End Spec.
+
+(* a name moving from one manifest to another: the first one is no longer a GC root *)
+Lemma names_example :
+  let r := nrun (ctab pf_ct) pf_isman 50
+             [NOp (AOp (PPush 0%N)); NOp (AOp (PPush 2%N)); NOp (AOp (PPush 3%N));
+              NTag 2%N 7%N; NTag 3%N 7%N; NOp (AOp (PGC []))] in
+  snd r = true /\ o_tagged (a_s (fst r)) = [3%N] /\ predecessors (o_graph (a_s (fst r))) 0%N = [2%N].
+Proof. vm_compute. repeat split. Qed.
